@@ -21,25 +21,7 @@ pub fn run_c14(cfg: &RunCfg, trace: bool) -> RunOut {
     };
     cx.exec.single_write = true;
     let emb = matches!(cfg.specs[0], crate::stack::Spec::Emb);
-    if emb {
-        // the embedded fixture is the initial content
-        let root = crate::harness::verif_root().join("fixtures/embedded");
-        fn walk(m: &mut Model, dir: &std::path::Path, rel: &str) {
-            if let Ok(rd) = std::fs::read_dir(dir) {
-                for e in rd.flatten() {
-                    let name = e.file_name().to_string_lossy().to_string();
-                    let p = format!("{}/{}", rel, name);
-                    if e.path().is_dir() {
-                        m.put(&p, Node::Dir);
-                        walk(m, &e.path(), &p);
-                    } else if let Ok(b) = std::fs::read(e.path()) {
-                        m.put(&p, Node::File(std::sync::Arc::new(b)));
-                    }
-                }
-            }
-        }
-        walk(&mut cx.world.m[0], &root, "");
-    }
+    let _ = emb; // the fixture is the initial content of Spec::Emb (Spec::view)
     let mut oracle: BTreeMap<u8, Oracle> = BTreeMap::new();
     let mut sig = crate::rng::hash_str(&cx.shape);
     let mut calls = 0;
